@@ -74,10 +74,13 @@ def gen_history(rng, n):
     t = 0
     out = []
     far = rng.random() < 0.25          # some histories run past 0xFFFFFF seconds
+    mid = not far and rng.random() < 0.15   # some use TTLs and pauses of one to three days
     for i in range(n):
         dt = rng.choice([0, 0, 0, 1, 1, 1, 2, 3])
         if far and rng.random() < 0.2:
             dt = rng.choice([BIG - 1, BIG, BIG + 1, FOREVER, FOREVER + 1, BIG - 2])
+        if mid and rng.random() < 0.4:
+            dt = rng.choice([86399, 86400, 86401, 90000, 100000, 172800, 10000])
         t += dt
         j = rng.choice([0, 0, 1, 2])
         if dt == 0 and out and "j" in out[-1]:
@@ -87,6 +90,8 @@ def gen_history(rng, n):
         if roll < 0.62:
             inp = {"op": "ts_refresh", "a": a, "key": k, "ttl": rng.choice(TTLS if far else [1, 2, 3, 3, 2, 1, FOREVER, BIG]),
                    "nak": rng.random() < 0.2}
+            if mid:
+                inp["ttl"] = rng.choice([100000, 200000, 86400, 86401, 3, FOREVER, 259200])
         elif roll < 0.8:
             inp = {"op": "ts_stop", "a": a, "key": k}
         elif roll < 0.88:
@@ -101,7 +106,7 @@ def gen_history(rng, n):
         else:
             inp["j"] = j
         out.append(inp)
-    tail = rng.choice([4, 4, 4, BIG + 5]) if far else 4
+    tail = rng.choice([4, 4, 4, BIG + 5]) if far else (300000 if mid else 4)
     return out, t + tail
 
 
